@@ -1,4 +1,5 @@
 """C03.frame / C03.count — header, chunk framing, END chunk, phase order; counts and loops from the same source."""
+import re
 from sa import core, ioseq, spec, tables
 from . import common
 from .common import argdesc
@@ -505,23 +506,44 @@ def run_count(c, prog):
         c.ok(R, "class-ids:monotone-under-vacant")
     else:
         c.violation(R, "classids|alloc", "TypeInfos::get_or_create no longer assigns `type_id = next_type_id; next_type_id += 1` under the Vacant-entry guard (class ids could repeat or a class get two INST chunks)", f.sp, instance="class-ids:monotone-under-vacant")
-    # SharedString pushed once: every shared_strings.push is guarded by !shared_string_ids.contains_key(..) and paired with an insert
-    f = common.find_fn(prog, SS + "collect_type_info$")
-    pushes = [n for n in core.walk_fn(f) if n.get("k") == "MethodCall" and n["m"] == "push" and core.place_root(n["recv"]) == ("self", ["shared_strings"])]
-    c.floor(R, len(pushes), 2, "shared_strings.push sites")
-    for idx, pn in enumerate(pushes):
+    # SharedString pushed once: every push onto the list of discovered SharedStrings (a Vec<SharedString> of the
+    # serializer module — a field, or a `&mut` parameter of a helper) is guarded by `!ids.contains_key(..)` on the id
+    # map (HashMap<SharedString, u32>) and paired with an insert into it
+    VEC = re.compile(r"^alloc::vec::Vec<rbx_types::shared_string::SharedString>$")
+    IDS = re.compile(r"^std::collections::(hash::map::)?HashMap<rbx_types::shared_string::SharedString, u32")
+
+    def peel(ty):
+        ty = ty or ""
+        while ty.startswith("&"):
+            ty = ty[5:] if ty.startswith("&mut ") else ty[1:]
+        return ty
+
+    def of_type(n, rx):
+        n = core.strip(n)
+        while n.get("k") in ("AddrOf", "Unary"):
+            n = core.strip(n["e"])
+        return rx.match(peel(n.get("ty") or n.get("aty"))) is not None
+    pushes = []
+    for f in prog.lib_fns():
+        if f.body is None or f.crate != "rbx_binary" or "::serializer::" not in f.path:
+            continue
+        for n in core.walk_fn(f):
+            if n.get("k") == "MethodCall" and n["m"] == "push" and of_type(n["recv"], VEC):
+                pushes.append((f, n))
+    c.floor(R, len(pushes), 1, "pushes onto the SharedString list")
+    for idx, (f, pn) in enumerate(pushes):
         guarded = False
         for n in core.walk_fn(f):
             if n.get("k") == "If" and any(x is pn for x in core.walk(n["t"])):
                 cnd = core.strip(n["c"])
                 if cnd.get("k") == "Unary" and cnd["op"] == "!":
                     e = core.strip(cnd["e"])
-                    if e.get("k") == "MethodCall" and e["m"] == "contains_key" and core.place_root(e["recv"]) == ("self", ["shared_string_ids"]):
-                        ins = [x for x in core.walk(n["t"]) if x.get("k") == "MethodCall" and x["m"] == "insert" and core.place_root(x["recv"]) == ("self", ["shared_string_ids"])]
+                    if e.get("k") == "MethodCall" and e["m"] == "contains_key" and of_type(e["recv"], IDS):
+                        ins = [x for x in core.walk(n["t"]) if x.get("k") == "MethodCall" and x["m"] == "insert" and of_type(x["recv"], IDS)]
                         if ins:
                             guarded = True
-        inst = f"sstr-once:{idx}"
+        inst = f"sstr-once:{core.short(f.path).rsplit('::', 1)[-1]}:{idx}"
         if guarded:
             c.ok(R, inst)
         else:
-            c.violation(R, f"sstr-once|{core.fingerprint(pn['args'][0], 3)}", "a SharedString is pushed onto shared_strings without the `!shared_string_ids.contains_key(..)` guard and matching insert: the same string can be stored twice in SSTR", core.loc(pn), instance=inst)
+            c.violation(R, f"sstr-once|{core.fingerprint(pn['args'][0], 3)}", "a SharedString is pushed onto the list of discovered strings without the `!ids.contains_key(..)` guard and matching insert: the same string can be stored twice in SSTR", core.loc(pn), instance=inst)
